@@ -30,6 +30,7 @@ type item struct {
 	py      aspgen.PyResult
 	pyIdx   int
 	verdict string
+	files   []aspgen.File
 }
 
 func hasBigInt(p aspgen.Prog) bool {
@@ -282,10 +283,39 @@ func main() {
 					it.pysrc = it.src
 				}
 			}
-			it.asp = aspgen.Eval(files, false)[0]
+			it.files = files
 			it.pyIdx = len(jobs)
 			jobs = append(jobs, aspgen.PyJob{Src: it.pysrc})
 		}
+		// single-file programs are interpreted in batches on one interpreter (one package each: they share nothing but
+		// the builtins); programs with a subincluded file get an interpreter of their own
+		var batch []*item
+		flush := func() {
+			if len(batch) == 0 {
+				return
+			}
+			files := []aspgen.File{}
+			for k, it := range batch {
+				f := it.files[0]
+				f.Name = fmt.Sprintf("p%d", k)
+				files = append(files, f)
+			}
+			for k, res := range aspgen.Eval(files, false) {
+				batch[k].asp = res
+			}
+			batch = nil
+		}
+		for _, it := range items {
+			if len(it.files) == 1 {
+				batch = append(batch, it)
+				if len(batch) == 64 {
+					flush()
+				}
+			} else {
+				it.asp = aspgen.Eval(it.files, false)[0]
+			}
+		}
+		flush()
 		pyres := aspgen.RunPython(jobs, c.Out)
 		os.Remove(c.Out + "/c16_driver.py")
 
